@@ -193,6 +193,110 @@ class Gen:
         gap = " " if r.random() < 0.93 else r.choice(["", "x", "&", "\t", "_"])
         return sent + gap + body
 
+    def clauses(self, pool, n):
+        r = self.r
+        return [r.choice(pool) for _ in range(n)]
+
+    def directive_cont(self, more=None):
+        """one continuation line of an already split directive: `!$omp& clauses [&]`"""
+        r = self.r
+        if r.random() < 0.5:
+            sent, pool = r.choice(["!$omp", "!$omp", "!$OMP", "!$Omp"]), OMP
+        else:
+            sent, pool = r.choice(["!$acc", "!$acc", "!$ACC", "!$aCc"]), ACC
+        body = r.choice([" ", ", "]).join(self.clauses(pool, r.choice([1, 3, 6, 10, 16])))
+        more = (r.random() < 0.3) if more is None else more
+        return sent + r.choice(["& ", "& ", "&", " & ", " "]) + body + (r.choice([" &", "&", "  &"]) if more else "")
+
+    def clean_statement(self):
+        """a statement without the shapes of the known findings (no trailing comment, no trailing
+        white space, no key-free long token)"""
+        r = self.r
+        for _ in range(20):
+            s = self.statement()
+            if "!" in s.replace("'", "").replace('"', "") and r.random() < 0.7:
+                continue
+            if all(len(w) < 30 for w in s.replace(",", " ").split(" ")):
+                return s
+        return "x = y + 1"
+
+    def split_directive(self):
+        """a directive already written over 2-3 lines; continuation lines of arbitrary length"""
+        r = self.r
+        if r.random() < 0.5:
+            sent, pool = r.choice(["!$omp", "!$OMP"]), OMP
+        else:
+            sent, pool = r.choice(["!$acc", "!$ACC"]), ACC
+        ind = " " * r.choice([0, 2, 4, 8])
+        n = r.choice([2, 2, 3])
+        lines = []
+        for i in range(n):
+            body = r.choice([" ", ", "]).join(self.clauses(pool, r.choice([1, 2, 5, 9, 15])))
+            head = sent + " " if i == 0 else r.choice([sent.lower(), sent]) + r.choice(["& ", "& ", "&", " "])
+            lines.append(r.choice([ind, ind, ""]) + head + body + (r.choice([" &", " &", "&"]) if i < n - 1 else ""))
+        return lines
+
+    def continued_statement(self):
+        """a statement already continued with `&` over 2-3 lines (leading `&` or not)"""
+        r = self.r
+        s = self.clean_statement()
+        cuts = [i + 2 for i in range(len(s) - 2) if s[i:i + 2] == ", "]
+        q = None
+        ok = []
+        for i, c in enumerate(s):            # cut only outside character context unless a leading & is used
+            if q is None and c in "'\"":
+                q = c
+            elif q == c:
+                q = None
+            if i in cuts:
+                ok.append((i, q is None))
+        if not ok:
+            return [" " * r.choice([0, 2, 6]) + s]
+        k = min(len(ok), r.choice([1, 1, 2]))
+        pts = sorted(r.sample(ok, k))
+        ind = " " * r.choice([0, 2, 6, 10])
+        lines, prev = [], 0
+        lead_prev = False
+        for pos, outside in pts:
+            seg = s[prev:pos]
+            lines.append((ind if not lead_prev else ind + "&") + seg + "&")
+            lead_prev = (not outside) or r.random() < 0.5
+            prev = pos
+        lines.append((ind if not lead_prev else ind + "  &") + s[prev:])
+        if r.random() < 0.2 and len(lines) > 1:
+            lines.insert(1, ind + "! a comment line between continuation lines")
+        return lines
+
+    def comment_block(self):
+        r = self.r
+        ind = " " * r.choice([0, 2, 6])
+        return [ind + r.choice(["!", "!", "!!", "!>"]) + self.comment_text() for _ in range(r.randint(2, 4))]
+
+    def structured_text(self, L):
+        """-> (tag, list of input lines)"""
+        r = self.r
+        k = r.random()
+        if k < 0.34:
+            return "split_directive", self.split_directive()
+        if k < 0.58:
+            return "continued_statement", self.continued_statement()
+        if k < 0.68:
+            return "comment_block", self.comment_block()
+        if k < 0.90:
+            # the output of a previous run at a larger limit, processed again at the smaller limit L
+            big = L + r.choice([5, 20, 40, 80])
+            kind = r.random()
+            line = self.indent()[:12] + (self.clean_statement() if kind < 0.5 else
+                                         self.directive() if kind < 0.8 else "!" + self.comment_text())
+            st, out = impl_process(big, line)
+            if st != "ok":
+                return "reprocessed", [line]
+            return "reprocessed", out.split("\n")
+        parts = []
+        for _ in range(r.randint(2, 3)):
+            parts += r.choice([self.split_directive, self.continued_statement, self.comment_block])()
+        return "mixed", parts
+
     def indent(self):
         r = self.r
         k = r.random()
@@ -212,8 +316,10 @@ class Gen:
             tag, body = "trailing_comment", self.statement() + r.choice([" ", "  ", ""]) + "!" + self.comment_text()
         elif k < 0.62:
             tag, body = "directive", self.directive()
-        elif k < 0.66:
+        elif k < 0.645:
             tag, body = "directive_comment", self.directive() + " !" + self.comment_text()
+        elif k < 0.66:
+            tag, body = "directive_cont", self.directive_cont()
         elif k < 0.78:
             tag, body = "comment", self.comment()
         elif k < 0.84:
@@ -281,6 +387,38 @@ def classify(line, L, status, out_lines, ltype):
             and any(spec.strip(x) == "&" for x in out_lines):
         return "process/lone-ampersand-line", "trailing white space becomes a line consisting of a single `&`"
     return "process/join-mismatch-unclassified", "joined output differs from joined input"
+
+
+def classify_text(lines, L, status, out_lines, check_join=True):
+    """Property on a multi-line input: join(process(lines)) ~ join(lines), limit, fixed point.
+    check_join=False (random mixtures of unrelated lines, e.g. a directive dropped between the
+    continuation lines of a statement): only exception / limit / fixed point; the join property of
+    such lines is evaluated line by line in the single-line cases.
+    A failure is attributed to the key of an over-long input line that fails on its own; a failure
+    that no single line explains gets its own key.  -> None | (key, why)"""
+    per_line = []
+    for ln in lines:
+        if len(ln) > L:
+            st1, o1 = impl_process(L, ln)
+            res = classify(ln, L, st1, o1.split("\n") if st1 == "ok" else [], impl_type(ln))
+            if res:
+                per_line.append(res)
+    if status == "exc":
+        return "process/unexpected-exception", "exception other than InternalError"
+    if status == "internal":
+        return per_line[0] if per_line else ("process/internal-error-no-break-point", "InternalError")
+    too_long = [x for x in out_lines if len(x) > L]
+    if too_long:
+        return "process/limit-exceeded", "output line of length %d > %d" % (len(too_long[0]), L)
+    st2, again = impl_process(L, "\n".join(out_lines))
+    if st2 != "ok" or again != "\n".join(out_lines):
+        return "process/not-idempotent", "processing the output again changes it (%s)" % st2
+    if not check_join or spec.prop_on_lines(lines, out_lines) != 1:
+        return None
+    if per_line:
+        return per_line[0]
+    return ("process/multiline-join-mismatch",
+            "joined output differs from joined input although every over-long line is fine on its own")
 
 
 def fparser_items(lines):
@@ -464,24 +602,46 @@ def run(ctx):
         tag, L, ln = cases[i]
         st, out = impl_process(L, ln)
         ctx.sample({"kind": tag, "limit": L, "line": ln, "impl": out.split("\n") if st == "ok" else st})
-    # multi-line texts (process_text = split / per line / join)
-    tcases = []
-    for _ in range(ctx.pick(60, 600)):
+    # multi-line texts: free mixtures of single lines + structured inputs whose lines are themselves
+    # continued (split directives with long `!$omp&` lines, `&`-continued statements, comment blocks,
+    # output of a run at a larger limit processed again at a smaller one)
+    tcases, texts_of = [], []
+    ntext = ctx.pick(170, 1600)
+    for it in range(ntext):
         L = rng.randint(40, 132)
-        lines = [g.fit(g.line()[1], L) for _ in range(rng.randint(0, 5))]
-        if rng.random() < 0.3:
-            lines.insert(rng.randint(0, len(lines)), "")
+        if it % 4 == 0:
+            tag, lines = "free_mixture", [g.fit(g.line()[1], L) for _ in range(rng.randint(0, 5))]
+            if rng.random() < 0.3:
+                lines.insert(rng.randint(0, len(lines)), "")
+        else:
+            tag, lines = g.structured_text(L)
+            if rng.random() < 0.5:      # make sure something has to be wrapped
+                longest = max((len(x) for x in lines), default=0)
+                if longest > 45:
+                    L = max(40, min(132, longest - rng.choice([1, 3, 10, 25])))
         text = "\n".join(lines)
         if any(ord(c) > 255 for c in text):
             continue
+        lines = text.split("\n")
         st, out = impl_process(L, text)
+        out_lines = out.split("\n") if st == "ok" else []
+        wrapped = any(len(x) > L for x in lines)
+        ctx.count(("text", L, text), wrapped)
+        ctx.hist("text_kind", tag)
+        ctx.hist("text_outcome", st if st != "ok" else ("wrapped" if wrapped else "unchanged"))
+        res = classify_text(lines, L, st, out_lines, check_join=(tag != "free_mixture"))
+        if res:
+            ctx.hist("property_failures_text", res[0])
+            failures.append((tag, L, text, st, out_lines, res))
         if st == "exc":
-            failures.append(("text", L, text, st, [], ("process/unexpected-exception", out)))
             continue
-        ctx.count(("text", L, text), any(len(x) > L for x in lines))
-        tcases.append("(%d%%N, %s, %s)" % (L, coq_b(text), ("Some " + coq_sums(out.split("\n"))) if st == "ok" else "None"))
+        pp = spec.prop_on_lines(lines, out_lines) if st == "ok" else 3
+        if tag != "free_mixture" and wrapped and st == "ok" and len(ctx.cov["samples"]) < 6:
+            ctx.sample({"kind": tag, "limit": L, "lines": lines, "impl": out_lines})
+        texts_of.append((tag, L, text))
+        tcases.append("(%d%%N, %s, %s, %d%%N)" % (L, coq_b(text), ("Some " + coq_sums(out_lines)) if st == "ok" else "None", pp))
     # --- 5. model vs implementation, Coq spec vs Python mirror, property re-evaluated by the Coq spec
-    bad_model, bad_spec, bad_prop, bad_text = [], [], [], []
+    bad_model, bad_spec, bad_prop, bad_text, bad_text_spec = [], [], [], [], []
     if okc:
         bad_any = ctx.coq_eval_failing(HEADER, "line_case", "line_check", coq_cases, shard=ctx.pick(250, 800))
         if bad_any:       # attribute: model != implementation / Coq spec != Python mirror / property on model output
@@ -489,12 +649,17 @@ def run(ctx):
             bad_model = [bad_any[i] for i in ctx.coq_eval_failing(HEADER, "line_case", "model_agrees", sub)]
             bad_spec = [bad_any[i] for i in ctx.coq_eval_failing(HEADER, "line_case", "spec_agrees", sub)]
             bad_prop = [bad_any[i] for i in ctx.coq_eval_failing(HEADER, "line_case", "property_ok", sub)]
-        bad_text = ctx.coq_eval_failing(HEADER, "text_case", "text_check", tcases, shard=300)
-    ctx.cov["disagreements_checked"] = len(bad_model) + len(bad_spec) + len(bad_prop) + len(bad_text)
+        bad_text_any = ctx.coq_eval_failing(HEADER, "text_case", "text_check", tcases, shard=ctx.pick(90, 400))
+        if bad_text_any:
+            sub = [tcases[i] for i in bad_text_any[:300]]
+            bad_text = [bad_text_any[i] for i in ctx.coq_eval_failing(HEADER, "text_case", "text_model_agrees", sub)]
+            bad_text_spec = [bad_text_any[i] for i in ctx.coq_eval_failing(HEADER, "text_case", "text_spec_agrees", sub)]
+    ctx.cov["disagreements_checked"] = len(bad_model) + len(bad_spec) + len(bad_prop) + len(bad_text) + len(bad_text_spec)
     ctx.log("cases=%d wrapped=%d | model!=impl: %d | coq-spec!=py-mirror: %d | theorem content false on model output: %d "
-            "| text model!=impl: %d | property failures on impl: %d | fparser validation %d compared / %d different"
-            % (len(cases), nontriv, len(bad_model), len(bad_spec), len(bad_prop), len(bad_text), len(failures), fp_cmp,
-               len(fp_bad)))
+            "| texts=%d model!=impl: %d, spec/limit/fixed-point on texts: %d | property failures on impl: %d | fparser "
+            "validation %d compared / %d different"
+            % (len(cases), nontriv, len(bad_model), len(bad_spec), len(bad_prop), len(tcases), len(bad_text),
+               len(bad_text_spec), len(failures), fp_cmp, len(fp_bad)))
     # --- 6. verdict
     reported = set()
     concrete = False
@@ -524,6 +689,9 @@ def run(ctx):
     if bad_prop:
         broken.append("limit/safe-join/fixed-point re-evaluated on the model output is false (%d cases): the theorems of "
                       "Properties/C18.v cannot hold of these tables" % len(bad_prop))
+    if bad_text_spec:
+        broken.append("multi-line texts: Coq join spec vs Python mirror, or limit / fixed point on the model output "
+                      "(%d cases)" % len(bad_text_spec))
     if bad_spec:
         broken.append("Coq spec Join.v / Python mirror spec.py disagree (%d cases)" % len(bad_spec))
     if fp_bad:
@@ -537,8 +705,9 @@ def run(ctx):
             first = {"kind": tag, "limit": L, "line": ln, "impl": out.split("\n") if st == "ok" else st,
                      "model": ctx.coq_eval_show(HEADER, ["let c := (%s) in (process_line (N.to_nat (c_limit c)) (c_line c), "
                                                          "safe (c_line c))" % coq_cases[i]])}
-        elif bad_text:
-            first = {"case": tcases[bad_text[0]][:1500]}
+        elif bad_text or bad_text_spec:
+            tag, L, text = texts_of[(bad_text or bad_text_spec)[0]]
+            first = {"kind": tag, "limit": L, "text": text, "impl": impl_process(L, text)[1]}
         elif fp_bad:
             first = fp_bad[0]
         ctx.violation({"property": "C18", "broken": broken, "first_differing_case": first,
